@@ -31,7 +31,7 @@ def norm_res(res, op=None):
     if r == "PASS":
         return ["PASS", res.get("ev_after")]
     out = [r]
-    for k in ("snap", "str", "items", "modules"):
+    for k in ("snap", "str", "items", "modules", "layers", "filters"):
         if k in res:
             if k == "str" and res.get("cls") != "LayeredArchitecture":
                 continue  # str(rule) is not a verdict (default repr / changes after alias expansion)
